@@ -262,3 +262,62 @@ func (h *vDB) rotateAndTakeAction() memStoreFlushAction {
 	vrt.Assert(<-done == nil, "dbfaults/rotation-no-error")
 	return a
 }
+
+// H_C11_DamagedInput: a compaction whose input cannot be read completely (the data file of one input table was cut
+// or a byte of it altered after the table was written) either fails - nothing is flagged or installed - or, if it
+// reports success, what it installs holds every record: it never reports success for an output that is missing
+// records.
+func H_C11_DamagedInput() {
+	vrt.RandPromoteBudget(0)
+	h := vNewDBEnvU(vUniverse)
+	defer h.fs.Cleanup()
+	opts := []ExtraOption{MemstoreSizeBytes(math.MaxUint64), WriteBufferSizeBytes(64), ReadBufferSizeBytes(64)}
+	vrt.Assert(h.open(opts...) == nil, "damagedinput/open-no-error")
+	a, b := vUniverse[0], vUniverse[1]
+	// table 1: a and b live; table 2: one of them overwritten, the other one deleted or overwritten
+	h.put(a, []byte{1})
+	h.put(b, []byte{2})
+	h.forceRotation()
+	h.put(a, []byte{3})
+	if vrt.Choose("second", 2) == 0 {
+		h.del(b)
+	} else {
+		h.put(b, []byte{4})
+	}
+	h.forceRotation()
+	h.runPendingNative()
+	victim := vrt.Choose("victim", 2)
+	h.db.sstableManager.managerLock.RLock()
+	dp := h.db.sstableManager.allSSTableReaders[victim].BasePath() + "/data.rio"
+	h.db.sstableManager.managerLock.RUnlock()
+	data := h.fs.ReadFile(dp)
+	vrt.Assert(len(data) > 8, "damagedinput/data-file-has-records")
+	// cut anywhere behind the file header (percentage: the real encoders give other lengths than the stand-ins)
+	cut := 8 + vrt.Range("cut", 0, 99)*(len(data)-8)/100
+	if vrt.Symbolic() {
+		vrt.Assert(len(data)-8 <= 100, "damagedinput/model-file-is-short-enough-to-reach-every-cut")
+	}
+	h.fs.WriteFile(dp, data[:cut])
+	h.db.compactedMaxSizeBytes = math.MaxUint64
+	h.db.compactionFileThreshold = 1
+	tablesBefore := h.tables()
+	meta, cerr := executeCompaction(h.db)
+	if cerr != nil {
+		vrt.Reach("damagedinput/compaction-failed")
+		vrt.Assert(meta == nil, "damagedinput/failed-compaction-returns-nothing-to-reflect")
+		flagged := false
+		for _, name := range h.fs.List(h.dir) {
+			if strings.HasPrefix(name, SSTableCompactionPathPrefix) && vFlagReadable(h.dir+"/"+name+"/"+CompactionFinishedSuccessfulFileName) {
+				flagged = true
+			}
+		}
+		vrt.Assert(!flagged, "damagedinput/failed-compaction-writes-no-success-flag")
+		vrt.Assert(h.tables() == tablesBefore, "damagedinput/failed-compaction-is-not-installed")
+	} else if meta != nil {
+		vrt.Reach("damagedinput/compaction-reported-success")
+		vrt.Assert(h.db.sstableManager.reflectCompactionResult(meta) == nil, "damagedinput/reflect-no-error")
+		h.checkReads("damagedinput/success-reported-means-nothing-is-missing")
+	}
+	vrt.TraceBool("done", true)
+	vrt.Reach("damagedinput/end")
+}
